@@ -1071,6 +1071,30 @@ pub fn cache_life(out: &mut Out, rng: &mut Rng, cfg: &Config, g: &GenOpts) {
             }
             continue;
         }
+        // rejection after a partial eviction: four residents fill the cache, three of them are popular,
+        // a moderately popular newcomer needs the room of two: the unpopular one is evicted, then the
+        // newcomer loses against a popular one and is rejected (C06, C07, C08 scenarios)
+        if !closed && !fit && rng.chance(1, 50) && cfg.max_cost / 4 - item >= 1 {
+            let each = cfg.max_cost / 4 - item;
+            s.clear();
+            s.drain();
+            for i in 0..4u64 {
+                s.insert(20 + i, conf, each, 0, false);
+                s.drain();
+            }
+            for i in 1..4u64 {
+                for _ in 0..3 {
+                    s.get(20 + i, conf);
+                }
+            }
+            s.get(29, conf);
+            while s.worker_items() {}
+            s.insert(29, conf, 2 * each + item, 0, false);
+            s.drain();
+            s.get(20, conf);
+            s.len();
+            continue;
+        }
         // estimator after clear(): a key is looked up often, the lookups are applied, the cache is
         // cleared, and the key is inserted again: the estimator must be that of a fresh cache (C11, C13)
         if !closed && rng.chance(1, 60) {
